@@ -254,6 +254,7 @@ struct Rw<'a> {
     fold_loops: bool,
     for_range: bool,
     for_iter: bool,
+    vec_elem: Option<String>,
     arr_own: bool,
     iter_model: Vec<String>,
     subst: Vec<(String, String)>,
@@ -430,7 +431,8 @@ impl<'a> Rw<'a> {
                 let items = self.render_tokens_as_exprs(&mac.tokens)?;
                 self.count("R17");
                 if items.is_empty() {
-                    Some("Vec::new()".to_string())
+                    // option vec_elem=<T>: the element type rustc infers from later pushes, written out (Verus's spec terms need it early)
+                    Some(match &self.vec_elem { Some(t) => format!("Vec::<{t}>::new()"), None => "Vec::new()".to_string() })
                 } else {
                     let pushes: Vec<String> = items.iter().map(|x| format!("__v.push({x});")).collect();
                     Some(format!("{{ let mut __v = Vec::new(); {} __v }}", pushes.join(" ")))
@@ -1039,7 +1041,8 @@ impl<'a, 'b, 'ast> Visit<'ast> for Collector<'a, 'b> {
                 // "begin-raw": ghost `let`s that must stay in scope for the whole iteration (not wrapped in a proof block)
                 let begin = format!("{}{}", rw.section(&format!("loop {idx} begin-raw")).map(|t| format!("{}\n", mark(t))).unwrap_or_default(), begin);
                 let before = rw.section(&format!("loop {idx} before")).map(|t| format!("proof {{ //@p\n{}\n}} //@p\n", mark(t))).unwrap_or_default();
-                let text = format!("{{ let mut __it{idx} = ({it}).into_iter();\n{before}loop\n{inv}\n{{ match __it{idx}.next() {{ Some({pat}) => {{ {binds}\n{begin}{{ {inner} }}\n{end} }} None => {{ break; }} }} }}\n{after} }}");
+                // rustc's own desugaring `match IntoIterator::into_iter(E) { mut iter => loop { .. } }`: temporaries of E live for the whole loop
+                let text = format!("{{ match ({it}).into_iter() {{ mut __it{idx} => {{\n{before}loop\n{inv}\n{{ match __it{idx}.next() {{ Some({pat}) => {{ {binds}\n{begin}{{ {inner} }}\n{end} }} None => {{ break; }} }} }}\n{after} }} }} }}");
                 rw.count("R18");
                 let sp = e.span().byte_range();
                 self.edits.push((sp.start, sp.end, text));
@@ -1175,6 +1178,7 @@ fn extract_body(repo: &Path, source: &str, d: &Directive, variant: &str) -> Resu
         fold_loops: d.opts.get("fold_loops").map(|v| v == "1").unwrap_or(false),
         for_range: d.opts.get("for_range").map(|v| v == "1").unwrap_or(false),
         for_iter: d.opts.get("for_iter").map(|v| v == "1").unwrap_or(false),
+        vec_elem: d.opts.get("vec_elem").cloned(),
         arr_own: d.opts.get("arr_own").map(|v| v == "1").unwrap_or(false),
         iter_model: d.opts.get("iter_model").map(|s| s.split(',').map(|x| x.to_string()).collect()).unwrap_or_default(),
         subst,
